@@ -529,6 +529,11 @@ impl<T: ?Sized, B: Borrow<Mutex<T>>> AcquireSlow<B, T> {
             }
         }
 
+        // Stop listening. If the lock was acquired right after `listen()` because another thread
+        // unlocked it in between, the listener may have been notified; dropping it passes the
+        // notification on instead of holding it for as long as this future is kept alive.
+        *this.listener = None;
+
         mutex
     }
 }
